@@ -752,7 +752,7 @@ func oneTable(seed int64) tableResult {
 }
 
 func Run(args []string) {
-	rep := vh.NewReport(command, "random type tables as in sem-addprops (4 named types, root of depth<=3, recursive references, nullable, additionalProperties) whose integer / float literals carry min / max (each with probability 1/2, exclusive flags one time in three, bounds from pools of odd spellings: -0, 0.5, 1.0, 1.00, 1.50, 0.15e1, 15e-1, 1e1) and whose strings carry minLength / maxLength; documents print every scalar with a token of a pool of spellings per kind (1e1, 2e0, 15e-1, -0, 2.50, 0.15e1, 1e-1, strings of length 0..4); JSight text -> real AddType/Check/Validate, same IR with raw tokens -> Lean VA.validateT through Num.scan/Num.cmp; 12 documents per table: 5 sampled from the schema, 5 sampled then mutated, 2 random; tables refused by Check (rule sets the example violates, exponent bounds = lexical error 301, ...) are skipped and counted by error code; nontrivial = a scalar with min/max/length rules is reachable from the root")
+	rep := vh.NewReport(command, "random type tables as in sem-addprops (4 named types, root of depth<=3, recursive references, nullable, additionalProperties) whose integer / float literals carry min / max (each with probability 1/2, exclusive flags one time in three, bounds from pools of odd spellings: -0, 0.5, 1.0, 1.00, 1.50, 0.15e1, 15e-1, 1e1) and whose strings carry minLength / maxLength; documents print every scalar with a token of a pool of spellings per kind (1e1, 2e0, 15e-1, -0, 2.50, 0.15e1, 1e-1, strings of length 0..4); JSight text -> real AddType/Check/Validate, same IR with raw tokens -> Lean VA.validateT through Num.scan/Num.cmp; 12 documents per table: 5 sampled from the schema, 5 sampled then mutated, 2 random; tables refused by Check (rule sets the example violates, exponent bounds = lexical error 301, ...) are skipped and counted by error code; nontrivial = a scalar with min/max/length rules is reachable from the root; a difference on a table where a non-nullable reference position whose names all end in a cycle of pure references (@a = @a: no alternative at all) is reachable from the root carries the class K-C09-cycle")
 	r := vh.NewRand(salt)
 	nTables := vh.Pick(3000, 100000)
 	const batch = 4000
